@@ -32,8 +32,8 @@ type bombRec struct {
 }
 
 func bombInput(shape string, n int, closed bool) []byte {
-	units := map[string]string{"arr": "[", "obj": `{"k":`, "mixed": `[{"k":`, "pad": " ["}
-	closers := map[string]string{"arr": "]", "obj": "}", "mixed": "}]", "pad": "]"}
+	units := map[string]string{"arr": "[", "obj": `{"k":`, "mixed": `[{"k":`, "pad": " [", "arrc": "["}
+	closers := map[string]string{"arr": "]", "obj": "}", "mixed": "}]", "pad": "]", "arrc": "]"}
 	u, ok := units[shape]
 	if !ok {
 		fmt.Fprintln(os.Stderr, "unknown shape", shape)
@@ -42,7 +42,10 @@ func bombInput(shape string, n int, closed bool) []byte {
 	var b bytes.Buffer
 	b.Grow(n*(len(u)+2) + 2)
 	b.WriteString(strings.Repeat(u, n))
-	if closed {
+	if closed && shape == "arrc" {
+		b.WriteByte(',') // a comma where a value must stand: never well-formed
+		b.WriteString(strings.Repeat(closers[shape], n))
+	} else if closed {
 		b.WriteByte('1')
 		b.WriteString(strings.Repeat(closers[shape], n))
 	}
